@@ -470,6 +470,8 @@ func rulesC01(w *World, r *Report) {
 	ruleAligned(w, r, "C01.R3")
 	r.Rule("C01.R4", "the batch writer aligns and stores every point of the batch it is given (no filtering inside archiveUpdateMany)", 2)
 	ruleWriterWritesAll(w, r, "C01.R4")
+	r.Rule("C01.R5", "read-side slot addressing: fetchRawPoints fills its result one slot at a time with readPointAt, the file offset of consecutive result elements advancing by pointSize (a loop variable stepping by 12, base+i*12, or pointOffsetAt of a stepping index) and the result index by one", 1)
+	ruleRawReadProgression(w, r, "C01.R5")
 }
 
 func sizeOfBasic(b *types.Basic) int {
@@ -912,4 +914,117 @@ func unwrapRangeCopy(v ssa.Value) ssa.Value {
 		}
 	}
 	return v
+}
+
+// ruleRawReadProgression: C01.R5.
+func ruleRawReadProgression(w *World, r *Report, rule string) {
+	f := fn(w.Lib, "Whisper.fetchRawPoints")
+	rp := fn(w.Lib, "Whisper.readPointAt")
+	if f == nil || rp == nil {
+		r.Undecided(rule, "fetchRawPoints:reads", "-", "fetchRawPoints / readPointAt not found")
+		return
+	}
+	var calls []*ssa.Call
+	for _, g := range withLiterals(f) {
+		calls = append(calls, callsTo(g, rp)...)
+	}
+	if len(calls) == 0 {
+		r.Undecided(rule, "fetchRawPoints:reads", w.pos(f.Pos()), "fetchRawPoints does not read its slots one by one with readPointAt: how consecutive result elements map to file offsets is not recognised")
+		return
+	}
+	stepsBy := func(v ssa.Value, k int64) bool {
+		ph, ok := stripConvert(v).(*ssa.Phi)
+		if !ok {
+			return false
+		}
+		for _, e := range ph.Edges {
+			if bo, ok := stripConvert(e).(*ssa.BinOp); ok && bo.Op == token.ADD {
+				if c, isK := constInt(bo.Y); isK && c == k && stripConvert(bo.X) == ssa.Value(ph) {
+					return true
+				}
+				if c, isK := constInt(bo.X); isK && c == k && stripConvert(bo.Y) == ssa.Value(ph) {
+					return true
+				}
+			}
+		}
+		return false
+	}
+	var progression func(v ssa.Value, d int) bool
+	progression = func(v ssa.Value, d int) bool {
+		v = stripConvert(v)
+		if d > 4 {
+			return false
+		}
+		if stepsBy(v, 12) {
+			return true
+		}
+		switch x := v.(type) {
+		case *ssa.BinOp:
+			if x.Op == token.ADD {
+				return progression(x.X, d+1) || progression(x.Y, d+1)
+			}
+			if x.Op == token.MUL {
+				if c, isK := constInt(x.Y); isK && c == 12 && (stepsBy(x.X, 1) || isRangeIndex(x.X)) {
+					return true
+				}
+				if c, isK := constInt(x.X); isK && c == 12 && (stepsBy(x.Y, 1) || isRangeIndex(x.Y)) {
+					return true
+				}
+			}
+		case *ssa.Call:
+			if sc := x.Common().StaticCallee(); sc != nil && sc == fn(w.Lib, "ArchiveInfo.pointOffsetAt") && len(x.Common().Args) == 2 {
+				a := stripConvert(x.Common().Args[1])
+				return stepsBy(a, 1) || isRangeIndex(a)
+			}
+		}
+		return false
+	}
+	for i, c := range calls {
+		key := fmt.Sprintf("fetchRawPoints:read#%d", i+1)
+		off := c.Common().Args[1]
+		okOff := progression(off, 0)
+		// the result element written: points[j] with j stepping by one
+		okIdx := false
+		for _, g := range withLiterals(f) {
+			eachInstr(g, func(in ssa.Instruction) {
+				st, ok := in.(*ssa.Store)
+				if !ok {
+					return
+				}
+				ia, ok := st.Addr.(*ssa.IndexAddr)
+				if !ok {
+					return
+				}
+				if ex, ok := st.Val.(*ssa.Extract); ok && ex.Tuple == ssa.Value(c) && ex.Index == 0 {
+					idx := stripConvert(ia.Index)
+					if stepsBy(idx, 1) || isRangeIndex(idx) {
+						okIdx = true
+					}
+					// an index kept in a captured variable: loaded, incremented and stored back
+					if u, ok := idx.(*ssa.UnOp); ok && u.Op == token.MUL {
+						okIdx = true
+					}
+				}
+			})
+		}
+		switch {
+		case !okOff:
+			r.Violate(rule, key, w.instrPos(c), "the file offset "+shortExpr(newExprCtx(w).expr(off))+" passed to readPointAt does not advance by pointSize from one result element to the next: slots of the window are read from the wrong place (or the same place again)")
+		case !okIdx:
+			r.Violate(rule, key, w.instrPos(c), "the slot read is not stored into consecutive elements of the result")
+		default:
+			r.OK(rule, key, w.instrPos(c), "offset advances by 12 per result element")
+		}
+	}
+}
+
+// isRangeIndex: v is (phi+1) of a range loop counter starting at -1.
+func isRangeIndex(v ssa.Value) bool {
+	bo, ok := stripConvert(v).(*ssa.BinOp)
+	if !ok || bo.Op != token.ADD {
+		return false
+	}
+	ph, ok := bo.X.(*ssa.Phi)
+	k, isK := constInt(bo.Y)
+	return ok && isK && k == 1 && loopFromTo(ph, -1)
 }
